@@ -48,6 +48,21 @@ def replayer(name):
     return deco
 
 
+# ------------------------------------------------------------------ C07: urljoin drops an empty path segment of a relative reference
+@trigger("c07_empty_path_segment")
+def _t_c07_empty_segment(f, obs):
+    return obs.get("kind") == "ttl_relative_reference" and "//" in obs.get("reference", "")[1:] and "://" not in obs.get("reference", "")
+
+
+@replayer("c07_empty_path_segment")
+def _r_c07_empty_segment(f):
+    import common
+    from shexer.io.graph.yielder.big_ttl_triples_yielder import BigTtlTriplesYielder
+    doc = "@base <http://example.org/base/dir/> .\n<a//b> <http://e/p> <http://e/o> .\n"
+    ts = [str(t[0]) for t in BigTtlTriplesYielder(raw_graph=doc).yield_triples()]
+    return ts == ["http://example.org/base/dir/a/b"]
+
+
 # ------------------------------------------------------------------ C20
 def _sm_unsupported(v):
     return (v['shape_map_file'] or v['shape_map_raw']) and not v['url_endpoint'] and not v['rdflib_graph'] and (
